@@ -1,11 +1,12 @@
 CFG = {
     "props_module": "Hy.Props.C16",
-    "gen_modules": ["core"],
+    "gen_modules": ["core", "app"],
     "level": "proof",
     "race": True,
     "streams": [
         {"mod": "core", "component": "reconnect", "driver": "reconnect", "timeout": 3000,
          "n": {"quick": 160, "thorough": 3000}},
+        {"mod": "app", "component": "c16cfg", "driver": "reconnect", "n": {"quick": 60, "thorough": 1000}},
     ],
     "rule": "one case = one whole history run on the REAL client.NewReconnectableClient against a real loopback hysteria "
             "server: sequential histories (3 in 4; lazy/eager start incl. failing eager starts, TCP / refused-TCP / UDP calls, "
@@ -15,7 +16,12 @@ CFG = {
             "(result class, configFunc calls, connectedFunc count arguments, set of open factory sockets, sockets obtained so far); "
             "concurrent histories (1 in 4; 2-4 goroutines, kills and Close at arbitrary times, scripted failing attempts, "
             "fast-open on/off; -race in the thorough tier) are checked by the model-free oracle only. distinct = distinct op line; "
-            "non-trivial = at least one successful connect happened",
+            "non-trivial = at least one successful connect happened. Failing reconnects are injected at EACH stage of connect(): "
+            "ConnFactory.New error, handshake error (TLS) and handshake timeout (server down: one corpus history in quick, more in thorough), "
+            "RoundTrip error (the server drops the connection while answering the auth request), non-233 status (authenticator rejects); "
+            "after every op the census shows, per factory socket, how often its packet conn and its quic.Transport were closed and whether "
+            "the server saw the QUIC connection closed by the client. Stream c16cfg: the application's real (*clientConfig).Config is evaluated "
+            "repeatedly while an in-process DNS server changes its answer (plain and port-hopping server strings)",
     "trusted_base": [
         "quic-go reports connection loss / stream limit as errors (contract: OpenStream at the limit returns "
         "*quic.StreamLimitReachedError; any error after CONNECTION_CLOSE is not that) and clientImpl.Close closes conn, "
@@ -26,6 +32,14 @@ CFG = {
         "stream `reconnect` and by facts regenerated on every run from the source (go/ast: assigners of rc.client, drop path closes, "
         "reconnect closes old, Close sets closed+closes, count++ only on the success path) and from the compiled "
         "wrapIfConnectionClosed (stream limit passes unwrapped, other errors become ClosedError)",
+        "connect()/Close as programs over (packet conn, transport, QUIC conn): tied by a go/ast fact table regenerated every run (for "
+        "each `return` of connect(): error kind + Close calls on its path; clientImpl.Close's calls and order; NewClient returns nil on error) "
+        "whose expected value is what a run of the model Hy.Connect closes on that exit, and by the per-socket census in the differential; "
+        "quic.Transport.Close is observed as the SetReadDeadline(now) it performs on a packet conn it did not create (quic-go contract), "
+        "the client's conn.CloseWithError as a remote application error on the server-side connection",
+        "app/cmd/client.go: NewReconnectableClient gets the method value config.Config, Config() allocates a fresh client.Config and "
+        "fillServerAddr resolves on every call and stores nothing (go/ast facts) + stream c16cfg (fake DNS through net.DefaultResolver); "
+        "NOT covered: the realm branch of Config() (needs a realm HTTP server + STUN), DNS caching outside the process",
         "the loopback server (real core/server with an accept-loop shim that exposes the server-side connection for kills) and the "
         "census wrapper around net.UDPConn are the environment, not the code under test",
     ],
